@@ -300,16 +300,15 @@ theorem recRun_eq_interp (cfg : Cfg) : ∀ (rs : List Rec) (t : Tail) (rd : Read
 
 theorem empty_wf : Buffer.empty.wf := by simp [Buffer.wf, Buffer.len, Buffer.empty]
 
-/-- **Main equivalence.**  For every stream `s` after a header of `hl` bytes and every list `ds`
-of read sizes, the buffered reader produces exactly the reference output `runWhole cfg s`. -/
-theorem run_eq_runWhole (cfg : Cfg) (hdr s : List UInt8) (ds : List Nat) :
-    run cfg hdr.length (hdr ++ s) ds = runWhole cfg s := by
-  unfold run
-  simp only
-  obtain ⟨hok, _, _⟩ := parseLoop_spec (good_pHeader hdr.length)
-    (({ rem := hdr ++ s, ds := ds } : Cb).measure + 1) Buffer.empty { rem := hdr ++ s, ds := ds } empty_wf (by omega)
-  have hph : pHeader hdr.length (logical Buffer.empty { rem := hdr ++ s, ds := ds }) = .ok () s := by
-    simp [pHeader, logical, Buffer.empty]
+/-- **Main equivalence.**  For every callback that still holds header + stream (whatever read
+sizes it is going to return, whether or not it reports EOF the way `file.rs` does), the buffered
+reader produces exactly the reference output `runWhole cfg s`. -/
+theorem runCb_eq_runWhole (cfg : Cfg) (hdr s : List UInt8) (c : Cb) (hc : c.rem = hdr ++ s) :
+    runCb cfg hdr.length c = runWhole cfg s := by
+  unfold runCb
+  obtain ⟨hok, _, _⟩ := parseLoop_spec (good_pHeader hdr.length) (c.measure + 1) Buffer.empty c empty_wf (by omega)
+  have hph : pHeader hdr.length (logical Buffer.empty c) = .ok () s := by
+    simp [pHeader, logical, Buffer.empty, hc]
   obtain ⟨b', c', hpl, hl', hw'⟩ := hok () s hph
   rw [hpl]
   simp only
@@ -319,8 +318,28 @@ theorem run_eq_runWhole (cfg : Cfg) (hdr s : List UInt8) (ds : List Nat) :
   unfold runWhole
   have hlen := parseAll_length cfg.hasEx (s.length + 1) s
   exact recRun_eq_interp cfg (recsOf cfg.hasEx s).1 (recsOf cfg.hasEx s).2 Reader.empty
-    (readFuel (hdr ++ s).length) rfl (by
-      show 4 * (parseAll cfg.hasEx (s.length + 1) s).1.length + 4 ≤ 4 * (hdr ++ s).length + 8
-      simp only [List.length_append]; omega)
+    (readFuel c.rem.length) rfl (by
+      show 4 * (parseAll cfg.hasEx (s.length + 1) s).1.length + 4 ≤ 4 * c.rem.length + 8
+      rw [hc]; simp only [List.length_append]; omega)
+
+theorem run_eq_runWhole (cfg : Cfg) (hdr s : List UInt8) (ds : List Nat) :
+    run cfg hdr.length (hdr ++ s) ds = runWhole cfg s :=
+  runCb_eq_runWhole cfg hdr s _ rfl
+
+/-- A callback built from an explicit chunk list hands out exactly those chunks, as long as each
+fits into the buffer space it is offered (which the callback contract demands), then EOF. -/
+theorem ofChunks_read_fits (ch : List UInt8) (cs : List (List UInt8)) (space : Nat) (h : ch.length ≤ space) :
+    (Cb.ofChunks (ch :: cs)).read space = (some ch, Cb.ofChunks cs) := by
+  have hn : min ch.length (min space (ch ++ cs.flatten).length) = ch.length := by
+    simp only [List.length_append]; omega
+  have ht : (ch ++ cs.flatten).take ch.length = ch := by
+    rw [List.take_append_of_le_length (Nat.le_refl _), List.take_length]
+  have hd : (ch ++ cs.flatten).drop ch.length = cs.flatten := by
+    rw [List.drop_append_of_le_length (Nat.le_refl _), List.drop_length, List.nil_append]
+  simp only [Cb.ofChunks, Cb.read, List.map_cons, List.flatten_cons, hn, ht, hd]
+  simp
+
+theorem ofChunks_read_eof (space : Nat) : (Cb.ofChunks []).read space = (none, Cb.ofChunks []) := by
+  simp [Cb.ofChunks, Cb.read]
 
 end Tw.Teehistorian
